@@ -509,9 +509,13 @@ fn judge_build(sc: &Scenario, build: Build, st: &mut Option<&mut Stats>) -> Opti
                     }
                     match (out, &ref_out) {
                         (Outcome::Complete(got, conv), Outcome::Complete(r, _)) => {
-                            if let Some(why) = check_hdr(got) {
-                                result = Some(fail("complete-fields-differ", format!("final fragment {} of {}: {}", s.k, s.n, why)));
-                                return false;
+                            // Of the Complete the statement fixes the payload, the decoded message
+                            // and the conversions - not the header fields (they are C07's, which is
+                            // not claimed). A difference there is counted, not judged.
+                            if check_hdr(got).is_some() {
+                                if let Some(st) = stg.as_deref_mut() {
+                                    st.probe("header fields of the Complete differ from the last fragment's (hint only)");
+                                }
                             }
                             if got.data != total {
                                 result = Some(fail(
